@@ -8,6 +8,7 @@ import (
 	"encoding/json"
 	"fmt"
 	"io"
+	"net"
 	"net/http"
 	"net/http/httptest"
 	"strings"
@@ -93,10 +94,12 @@ type refServer struct {
 	msgPath   string // legacy: message path announced in the endpoint event
 	sessionID string
 	ts        *httptest.Server
+	baseURL   string
 	quit      chan struct{}
 
 	mu      sync.Mutex
 	recs    []*srvRec
+	fail503 int         // answer the next fail503 requests with 503 (recorded like any other)
 	streams int         // listening streams opened so far
 	push    chan string // raw SSE frames for the (single) listening stream
 	evN     int
@@ -105,14 +108,54 @@ type refServer struct {
 func newRefServer(client, path, msgPath, sessionID string) *refServer {
 	s := &refServer{client: client, path: path, msgPath: msgPath, sessionID: sessionID,
 		quit: make(chan struct{}), push: make(chan string, 256)}
-	s.ts = httptest.NewServer(s)
 	return s
 }
 
-func (s *refServer) base() string { return s.ts.URL }
+// start serves on a fresh loopback port.
+func (s *refServer) start() *refServer {
+	s.ts = httptest.NewServer(s)
+	s.baseURL = s.ts.URL
+	return s
+}
+
+// reserve picks a loopback address and leaves it closed: connections are refused until startReserved.
+func (s *refServer) reserve() error {
+	l, err := net.Listen("tcp", "127.0.0.1:0")
+	if err != nil {
+		return err
+	}
+	s.baseURL = "http://" + l.Addr().String()
+	return l.Close()
+}
+
+// startReserved opens the listener on the reserved address.
+func (s *refServer) startReserved() error {
+	addr := strings.TrimPrefix(s.baseURL, "http://")
+	var l net.Listener
+	var err error
+	for i := 0; i < 100; i++ {
+		if l, err = net.Listen("tcp", addr); err == nil {
+			break
+		}
+		time.Sleep(5 * time.Millisecond)
+	}
+	if err != nil {
+		return err
+	}
+	s.ts = httptest.NewUnstartedServer(s)
+	_ = s.ts.Listener.Close()
+	s.ts.Listener = l
+	s.ts.Start()
+	return nil
+}
+
+func (s *refServer) base() string { return s.baseURL }
 
 func (s *refServer) close() {
 	close(s.quit)
+	if s.ts == nil {
+		return
+	}
 	s.ts.CloseClientConnections()
 	done := make(chan struct{})
 	go func() { s.ts.Close(); close(done) }()
@@ -126,6 +169,12 @@ func (s *refServer) snapshot() []*srvRec {
 	s.mu.Lock()
 	defer s.mu.Unlock()
 	return append([]*srvRec{}, s.recs...)
+}
+
+func (s *refServer) setFail503(n int) {
+	s.mu.Lock()
+	s.fail503 = n
+	s.mu.Unlock()
 }
 
 func (s *refServer) count() int {
@@ -228,6 +277,17 @@ func answerFor(m rpcPeek) string {
 func (s *refServer) ServeHTTP(w http.ResponseWriter, r *http.Request) {
 	body, _ := io.ReadAll(r.Body)
 	rec := s.record(r, body)
+	s.mu.Lock()
+	unhealthy := s.fail503 > 0
+	if unhealthy {
+		s.fail503--
+		rec.Status = http.StatusServiceUnavailable
+	}
+	s.mu.Unlock()
+	if unhealthy {
+		http.Error(w, "service unavailable (scripted by the harness)", http.StatusServiceUnavailable)
+		return
+	}
 	if !rec.Served {
 		s.setStatus(rec, http.StatusNotFound)
 		http.Error(w, "not found (reference server serves only its configured path)", http.StatusNotFound)
